@@ -48,9 +48,9 @@ Definition opt_keys_eqb (a b : option (list bytes)) : bool :=
 Definition case_ok (c : case) : bool :=
   match c with
   | CStruct _ t body structure envelope =>
-    (* the decision rule of structure() is the one T1 found in the source *)
-    bytes_eqb (write_body esc_go structure_msg_single t) body
-    && bytes_eqb (write_bodystructure esc_go structure_msg_single t) structure
+    (* the decision rules of structure() / singlePartStructure() are the ones T1 found in the source *)
+    bytes_eqb (write_body esc_go structure_lines_any_message structure_msg_single t) body
+    && bytes_eqb (write_bodystructure esc_go structure_lines_any_message structure_msg_single t) structure
     && bytes_eqb (write_envelope esc_go (node_env t)) envelope
   | CWf _ text => wf_plist text
   | CParse _ lit ct obs =>
